@@ -394,6 +394,18 @@ func resolveClass(u *FuncUnit, m string) string {
 	return "f:" + u.Pkg.Path + "." + m
 }
 
+// notHeldBeforeBirth: the set of mutexes this goroutine held when the function under
+// verification was entered contains no mutex of an object that did not exist yet.
+func (x *Exec) notHeldBeforeBirth(st *State, ref *Term) {
+	if x.entry == nil {
+		return
+	}
+	tb := x.tb
+	hs := tb.Array(tb.BV(64), tb.Bool)
+	h0 := x.heapGet(x.entry, "g:held", hs)
+	x.assume(st, tb.Implies(tb.ULe(x.now(x.entry), x.birth(ref)), tb.Not(tb.Select(h0, ref))))
+}
+
 func subset(a, b map[string]bool) bool {
 	for k := range a {
 		if !b[k] && !isGhostClass(k) {
@@ -919,6 +931,7 @@ func (x *Exec) special(fr *Frame, st *State, ins ssa.Instruction, callee *ssa.Fu
 		if x.noLockHavoc(fr.fn) && x.lockStateOn() {
 			// typestate only: held/not held is tracked, the heap is not exposed to other goroutines
 			ref := x.lockRef(args[0])
+			x.notHeldBeforeBirth(st, ref)
 			h := x.heapGet(st, "g:held", tb.Array(tb.BV(64), tb.Bool))
 			x.addObl(fr, st, "lock", ins, "", tb.Not(tb.Select(h, ref)))
 			x.heapSet(st, "g:held", tb.Store(h, ref, tb.True))
@@ -929,6 +942,7 @@ func (x *Exec) special(fr *Frame, st *State, ins ssa.Instruction, callee *ssa.Fu
 			return Val{T: resT}, true
 		}
 		ref := x.lockRef(args[0])
+		x.notHeldBeforeBirth(st, ref)
 		h := x.heapGet(st, "g:held", tb.Array(tb.BV(64), tb.Bool))
 		x.addObl(fr, st, "lock", ins, "", tb.Not(tb.Select(h, ref)))
 		// state protected by the mutex may have been changed by other goroutines
@@ -945,6 +959,7 @@ func (x *Exec) special(fr *Frame, st *State, ins ssa.Instruction, callee *ssa.Fu
 			return Val{T: resT}, true
 		}
 		ref := x.lockRef(args[0])
+		x.notHeldBeforeBirth(st, ref)
 		h := x.heapGet(st, "g:held", tb.Array(tb.BV(64), tb.Bool))
 		x.addObl(fr, st, "lock", ins, "", tb.Select(h, ref))
 		x.heapSet(st, "g:held", tb.Store(h, ref, tb.False))
